@@ -5,7 +5,7 @@ from ..common import run_apps, app, out_of, sig, base_files
 from ..core import unhx
 from .C04 import ParseCase
 
-THEOREMS = []
+THEOREMS = ['read_fault_is_error', 'long_line_is_error', 'success_implies_complete', 'command_success_implies_complete']
 LEVEL = 'proof'
 RULE = ('small generated files with the reader failing at every byte offset (exhaustive over offsets), through the parser and through the commands; '
         'files with a line of 65535 / 65536 / 70000 bytes at first / middle / last position; a directory and a missing path on the real binary; '
